@@ -84,13 +84,28 @@ func hyphenRejected(lo, hi Partial) bool {
 	return cmpPre(hi.Pre, lo.Pre) < 0
 }
 
+// hyphenSatisfiable: node's reading `>=from <to` / `>=from <=to` of the hyphen
+// alternative has a member.
+func hyphenSatisfiable(lo, hi Partial) bool {
+	cs := desugarHyphen(lo, hi)
+	from, to := cs[0], cs[1]
+	if from.Any || to.Any {
+		return true
+	}
+	k := cmpSemVer(from.V, to.V)
+	if to.Op == "<" {
+		return k < 0
+	}
+	return k <= 0
+}
+
 // hyphenBelow: a hyphen alternative the library's hyphen rule rejects.
-// partialHi tells the two findings apart: a partial or wildcard upper bound
-// (node completes it upwards: `1.2.3 - 1`, `1 - *`) or a full one (the
-// alternative is empty in node but the other alternatives of the range are not).
-func npmHyphenBelow(r Range, partialHi bool) bool {
+// satisfiable tells the two findings apart: the alternative has members in
+// node (`1.2.3 - 1`, `1 - *`: node completes a partial upper bound upwards), or
+// it is empty in node (and the other alternatives of the range are not).
+func npmHyphenBelow(r Range, satisfiable bool) bool {
 	for _, a := range r.Alts {
-		if a.Hyphen && hyphenRejected(a.Lo, a.Hi) && isPartial(a.Hi) == partialHi {
+		if a.Hyphen && hyphenRejected(a.Lo, a.Hi) && hyphenSatisfiable(a.Lo, a.Hi) == satisfiable {
 			return true
 		}
 	}
